@@ -301,7 +301,7 @@ def real_events(run: Run, count: int, toy_groups: list[dict[str, Any]]) -> list[
     evs: list[dict[str, Any]] = []
 
     def cv(ec: Any) -> dict[str, Any]:
-        return {"p": nat(ec.p), "a": nat(ec._a), "b": nat(ec._b), "gx": nat(ec.G[0]), "gy": nat(ec.G[1]), "n": nat(ec.n), "h": ec.cofactor}
+        return {"p": nat(ec.p), "a": nat(ec._a), "b": nat(ec._b), "gx": nat(ec.G[0]), "gy": nat(ec.G[1]), "n": nat(ec.n), "h": nat(ec.cofactor)}
 
     curves: list[tuple[str, Any]] = [("secp256k1", secp256k1), ("secp256r1", CURVES["secp256r1"]), ("secp112r1", CURVES["secp112r1"]),
                                      ("secp521r1", CURVES["secp521r1"]), ("bpp160r1", CURVES["bpp160r1"])]
